@@ -810,6 +810,17 @@ asanyarray = asarray
 ascontiguousarray = asarray
 
 
+def array_equal(a1, a2, equal_nan=False):
+    a1 = a1 if _isinstance(a1, ndarray) else asarray(a1)
+    a2 = a2 if _isinstance(a2, ndarray) else asarray(a2)
+    if a1.shape != a2.shape:
+        return False
+    r = all(equal(a1, a2))
+    if _isinstance(r, ndarray):
+        r = r._one()
+    return r
+
+
 def copyto(dst, src, casting='same_kind', where=True):
     if where is not True:
         raise OutOfModel('np.copyto with a mask')
